@@ -8,6 +8,7 @@ import ElfioVerif.Props.C08
 set_option linter.unusedSimpArgs false
 namespace ElfioVerif
 open Gen
+namespace Sv
 
 /-! ### slices -/
 
@@ -151,15 +152,7 @@ def saveTail (o : Obj) (os : OStream) (h0 : Bytes) (segs1 : List Seg) (lay : Lay
   let (secs, pos) := layoutLoose c segs lay.secs 0 lay.pos []
   let pos := lst_cursor pos (lst_error pos)
   let h := Hdr.set_shoff c e h0 pos.toNat
-  let os := (os.seekp (trApply o.trans 0)).write h
-  let o := { o with hdr := some h, secs := secs, segs := segs, curPos := pos }
-  if os.fail then { obj := o, os := os, ok := false } else
-  let shoff := Hdr.e_shoff c e h
-  let (secs, ls) := residentForSave c o.trans secs { st := o.stream } []
-  let o := { o with secs := secs, stream := ls.st }
-  let os := secs.foldl (saveSection c e shoff (Hdr.e_shentsize c e h)) os
-  let os := segs.foldl (saveSegment c e (Hdr.e_phoff c e h) (Hdr.e_phentsize c e h)) os
-  { obj := o, os := os, ok := !os.fail }
+  saveWrite o h secs segs pos os
 
 /-- the sections, segments, cursor and header a successful save leaves in the object -/
 def tailSegs (segs1 done : List Seg) : List Seg := putBack segs1 done
@@ -181,6 +174,36 @@ def tailOs (o : Obj) (os : OStream) (h0 : Bytes) (segs1 : List Seg) (lay : Layou
     (saveSection o.cls o.enc (Hdr.e_shoff o.cls o.enc h) (Hdr.e_shentsize o.cls o.enc h)) (tailOs1 o os h0 segs1 lay done)
   (tailSegs segs1 done).foldl (saveSegment o.cls o.enc (Hdr.e_phoff o.cls o.enc h) (Hdr.e_phentsize o.cls o.enc h)) os1
 
+/-- the write phase of `save` when it reports success (same statement as `saveWrite_ok` of
+    Lemmas/Layout.lean; restated here so that this file does not depend on that one) -/
+theorem saveWrite_ok' (o : Obj) (h : Bytes) (secs : List SecBuf) (segs : List Seg) (pos : BitVec 64) (os : OStream)
+    (hok : (saveWrite o h secs segs pos os).ok = true) :
+    ((os.seekp (trApply o.trans 0)).write h).fail = false ∧
+    (saveWrite o h secs segs pos os).obj =
+      { o with hdr := some h, secs := (residentForSave o.cls o.trans secs { st := o.stream } []).1,
+               segs := segs, curPos := pos,
+               stream := (residentForSave o.cls o.trans secs { st := o.stream } []).2.st } ∧
+    (saveWrite o h secs segs pos os).os =
+      segs.foldl (saveSegment o.cls o.enc (Hdr.e_phoff o.cls o.enc h) (Hdr.e_phentsize o.cls o.enc h))
+        ((residentForSave o.cls o.trans secs { st := o.stream } []).1.foldl
+          (saveSection o.cls o.enc (Hdr.e_shoff o.cls o.enc h) (Hdr.e_shentsize o.cls o.enc h))
+          ((os.seekp (trApply o.trans 0)).write h)) ∧
+    (saveWrite o h secs segs pos os).os.fail = false := by
+  unfold saveWrite at hok ⊢
+  cases hf : ((os.seekp (trApply o.trans 0)).write h).fail <;> cases hc : o.cls <;>
+    simp only [hf, hc, Bool.not_false, Bool.not_true, save_header_result32, save_header_result,
+      Bool.false_eq_true, if_false, if_true, save_sections_result, save_segments_result, save_result,
+      Bool.true_and, Bool.false_and] at hok ⊢
+  all_goals first
+    | (refine ⟨?_, ?_, ?_, ?_⟩ <;> first | trivial | rfl | simpa using hok)
+    | exact absurd hok (by decide)
+    | (simp at hok)
+
+theorem saveTail_eq_write (o : Obj) (os : OStream) (h0 : Bytes) (segs1 : List Seg) (lay : Layout) (done : List Seg) :
+    saveTail o os h0 segs1 lay done =
+      saveWrite o (tailHdr o h0 segs1 lay done) (tailLoose o segs1 lay done).1 (tailSegs segs1 done)
+        (tailShoff o segs1 lay done) os := rfl
+
 theorem saveTail_ok {o : Obj} {os : OStream} {h0 : Bytes} {segs1 : List Seg} {lay : Layout} {done : List Seg}
     (hok : (saveTail o os h0 segs1 lay done).ok = true) :
     (tailOs1 o os h0 segs1 lay done).fail = false ∧
@@ -190,16 +213,10 @@ theorem saveTail_ok {o : Obj} {os : OStream} {h0 : Bytes} {segs1 : List Seg} {la
                stream := (residentForSave o.cls o.trans (tailLoose o segs1 lay done).1 { st := o.stream } []).2.st } ∧
     (saveTail o os h0 segs1 lay done).os = tailOs o os h0 segs1 lay done ∧
     (tailOs o os h0 segs1 lay done).fail = false := by
-  unfold saveTail at hok ⊢
-  simp only at hok ⊢
-  split at hok
-  · cases hok
-  · rename_i hf
-    rw [if_neg hf]
-    simp only [Bool.not_eq_true', Bool.not_eq_eq_eq_not, Bool.not_true] at hok
-    have hf' := hf
-    simp only [Bool.not_eq_true] at hf'
-    exact ⟨hf', rfl, rfl, hok⟩
+  rw [saveTail_eq_write] at hok ⊢
+  obtain ⟨a, b, c, d⟩ := saveWrite_ok' _ _ _ _ _ _ hok
+  rw [c] at d
+  exact ⟨a, b, c, d⟩
 
 /-- the object after the `get_data()` on every section with which `save` begins -/
 def preRes (o : Obj) : Obj :=
@@ -234,8 +251,6 @@ theorem save_eq (o : Obj) (os : OStream) :
       | none => rfl
       | some p =>
         obtain ⟨lay, done⟩ := p
-        simp only [saveTail]
-        rw [apply_ite (pure : SaveRes → M SaveRes)]
         rfl
 
 /-- a successful save went through every phase (`preRes o` is the object after the initial
@@ -1047,7 +1062,7 @@ theorem FrameL.comp {α} {R S T : α → α → Prop} (hc : ∀ a m b, R a m →
 /-! ### the output stream: `adjust_stream_size` + `write` -/
 
 /-- a stream that has not failed and has no byte budget -/
-def OStream.Good (s : OStream) : Prop := s.fail = false ∧ s.budget = none
+def _root_.ElfioVerif.OStream.Good (s : OStream) : Prop := s.fail = false ∧ s.budget = none
 
 theorem write_good (s : OStream) (hg : s.Good) (bs : Bytes) :
     s.write bs = { content := if s.pos + bs.length ≤ s.content.length then wr s.content s.pos bs
@@ -1447,7 +1462,7 @@ theorem addString_refines (b : SecBuf) (hI : b.Inv) (str : Bytes)
 /-! ### idempotence ingredients (C06) -/
 
 /-- in memory, or known to be unloadable: a further `get_data()` does nothing -/
-def SecBuf.Settled (b : SecBuf) : Prop := b.isLoaded = true ∨ b.canLoad = false
+def _root_.ElfioVerif.SecBuf.Settled (b : SecBuf) : Prop := b.isLoaded = true ∨ b.canLoad = false
 
 theorem secGetData_settled (c : Cls) (tr : List Trans) (ls : LoadSt) (b : SecBuf) :
     (secGetData c tr ls b).2.Settled := by
@@ -2379,4 +2394,5 @@ theorem map_backFn_eq {ordered ds : List Seg} (hr : All2 (fun g d => d.index = g
   · rw [List.getElem?_eq_none hk, List.getElem?_eq_none (by rw [hlen]; exact hk)]; rfl
 
 
+end Sv
 end ElfioVerif
